@@ -418,10 +418,42 @@ def correspondence(ctx, sites, maxline, binary, asan, deep):
         ctx.sample({"site": r.site, "payload_bytes": n, "model": want[:60], "ledger": got[:60]}, cap=4)
 
 
+def alias_boundary_tables():
+    """Cyclic alias tables (self-, 2- and 3-cycles, with and without sub-accounts in the targets), entered through the full
+    name and through the first segment, and acyclic chains of several lengths: journal.cc 162-213, the already_seen list."""
+    jobs = []
+    cyc = {
+        "self": [[("A", "A:X")]],
+        "2": [[("A", "B"), ("B", "A")], [("A", "B:X"), ("B", "A:Y")], [("A", "B:X"), ("B", "A")], [("A", "B"), ("B", "A:Y")]],
+        "3": [[("A", "B"), ("B", "C"), ("C", "A")], [("A", "B:X"), ("B", "C:Y"), ("C", "A:W")], [("A", "B"), ("B", "C:Y"), ("C", "A")]],
+        "tail": [[("Q", "A"), ("A", "B:X"), ("B", "A:Y")], [("Q", "A:T"), ("A", "B"), ("B", "A")]],
+    }
+    entries = ["A", "A:Z", "A:Z:W", "B", "B:Z", "C:Z", "Q", "Q:Z", "Z:A", "Z"]
+    for tables in cyc.values():
+        for t in tables:
+            for e in entries:
+                for rec in (True, False):
+                    jobs.append((t, e, rec))
+    for n in (2, 5, 12, 30):
+        plain = [("K%d" % i, "K%d" % (i + 1)) for i in range(n)]
+        sub = [("K%d" % i, "K%d:s%d" % (i + 1, i)) for i in range(n)]
+        for t in (plain, sub):
+            for e in ("K0", "K0:Z", "K%d" % (n - 1), "K%d:Z" % (n // 2), "K%d" % n):
+                for rec in (True, False):
+                    jobs.append((t, e, rec))
+    return jobs
+
+
+def alias_case(table, name, rec):
+    text = "".join("alias %s=%s\n" % kv for kv in table) + "2020/01/01 p\n    %s  1 EUR\n    Zother\n" % name
+    return Case(["bal", "--flat", "--format", "%(account)\n", "--no-total"] + (["--recursive-aliases"] if rec else []), text, kind="alias")
+
+
 def alias_correspondence(ctx, binary, asan, n_cases):
     rng = ctx.rng
     names = ["A", "B", "C", "D", "E"]
-    jobs = []
+    jobs = alias_boundary_tables()
+    ctx.extra_cov["alias_boundary_cases"] = len(jobs)
     for _ in range(n_cases):
         keys = rng.sample(names, rng.randint(1, 4))
         table = []
@@ -438,16 +470,13 @@ def alias_correspondence(ctx, binary, asan, n_cases):
     lines = ["alias.expand\t%d\t%s\t%s" % (1 if rec else 0, ";".join("%s=%s" % kv for kv in table), name) for table, name, rec in jobs]
     model = vflib.driver_run(lines)
 
-    def one(j):
-        table, name, rec = j
-        text = "".join("alias %s=%s\n" % kv for kv in table) + "2020/01/01 p\n    %s  1 EUR\n    Zother\n" % name
-        return run_case(Case(["bal", "--flat", "--format", "%(account)\n", "--no-total"] + (["--recursive-aliases"] if rec else []), text), binary, asan=asan)
-    outs = vflib.pmap(one, jobs)
+    outs = vflib.pmap(lambda j: run_case(alias_case(*j), binary, timeout=FUZZ_TIMEOUT[0], asan=asan), jobs)
+    failing = []
     for (table, name, rec), m, o in zip(jobs, model, outs):
         ctx.count()
         ctx.feature("corr:alias")
-        if o.bad():
-            report_failure(ctx, Case(["bal"], "".join("alias %s=%s\n" % kv for kv in table) + "2020/01/01 p\n    %s  1 EUR\n    Zother\n" % name), o, binary, asan)
+        if o.bad() or o.rc == -signal.SIGKILL:
+            failing.append((alias_case(table, name, rec), o))
             continue
         f = m.split("\t")
         if f[0] != "ok":
@@ -468,6 +497,10 @@ def alias_correspondence(ctx, binary, asan, n_cases):
             ctx.traces_validated += 1
             if len(table) >= 2:
                 ctx.nontrivial(("alias", tuple(table), name, rec))
+    # a timeout here is the property's own verdict (the loop of expand_aliases did not stop): smallest input first
+    failing.sort(key=lambda x: x[0].size())
+    for c, o in failing[:3]:
+        report_failure(ctx, c, o, binary, asan)
 
 
 # ---------------------------------------------------------------------------
@@ -548,11 +581,14 @@ def suspects(case, sites):
             keep.append(a)
         S.append(("C11:crash:filters.cc:generated-xact-null-journal", "--anon / --account applied to transactions generated from a periodic transaction (they have no journal)",
                   Case(keep, case.journal, case.stdin, case.kind)))
-    msr = re.search(r"(?<![\w.])([A-Za-z_]\w*)\s*=(?![=~])([^;=\n]*?)(?<![\w.])\1(?![\w(])", alltext)
+    msr = re.search(r"(?<![\w.])([A-Za-z_]\w*)\s*=(?![=~])([^;=\n]*?)(?<![\w.])\1(?![\w(])", re.sub(r"(?m)^\s*[@!]?alias\s.*$", "", alltext))
     if msr:
         name = msr.group(1)
         S.append(("C11:stack:self-referential-definition", "a definition that refers to itself (`%s = ... %s ...`) recurses without limit when it is evaluated" % (name, name),
                   _map_texts(case, lambda t: re.sub(r"((?<![\w.])%s\s*=(?![=~])[^;=\n]*?)(?<![\w.])%s(?![\w(])" % (re.escape(name), re.escape(name)), r"\g<1>1", t))))
+    if "--recursive-aliases" in case.args and case.journal and re.search(rb"(?m)^\s*(?:alias\s|[@!]alias\s)", case.journal):
+        S.append(("C11:hang:journal.cc:expand_aliases", "recursive alias expansion does not stop (the already_seen check of journal_t::expand_aliases misses the cycle)",
+                  Case([a for a in case.args if a != "--recursive-aliases"], case.journal, case.stdin, case.kind)))
     if "--script" in case.args:
         i = case.args.index("--script")
         S.append(("C11:hang:main.cc:script-loop", "--script FILE: the read loop tests only eof(), so a missing file or a line of 1023+ bytes loops forever",
@@ -692,6 +728,9 @@ def classify_sanitizer(txt, case, asan_bin):
     if m and "AddressSanitizer" not in txt:
         return "ubsan", "%s:%s" % (os.path.basename(m.group(1)), m.group(3).strip().replace(" ", "-")[:40])
     m = re.search(r"AddressSanitizer: ([a-z-]+)", txt)
+    if m and re.search(r"#[0-3] 0x[0-9a-f]+ in history_expand \(\S*libedit", txt):
+        # the error is inside the system's libedit (its own buffer, fed a valid NUL-terminated line by main.cc): not ledger code
+        return "external", "libedit:history_expand"
     if m:
         err = m.group(1)
         parts = re.split(r"\n(?=freed by thread|previously allocated by thread|allocated by thread)", txt)
@@ -786,10 +825,8 @@ def shrink(case, binary, asan, kind, budget=None):
 # root-cause fingerprints that replace earlier frame-based ones: while known_findings.json still lists the old name the
 # old name is reported, so that renaming the entries there is not a precondition for this check
 FINGERPRINT_ALIASES = {
-    "C11:uaf:temporaries-cross-filter": ["C11:crash:account_t::~account_t"],
-    "C11:repl-sequence:stale-merged-expr-definition": ["C11:stack:expr_t::op_t::calc"],
     "C11:stack:self-referential-definition": ["C11:stack:bind_scope_t::lookup", "C11:stack:expr_t::op_t::calc"],
-    "C11:crash:filters.cc:generated-xact-null-journal": ["C11:crash:anonymize_posts::operator"],
+    "C11:uaf:temporaries-cross-filter": ["C11:crash:account_t::~account_t"],
 }
 
 
@@ -815,6 +852,8 @@ def report_failure(ctx, case, outcome, binary, asan, hint=None):
         return
     ctx.feature("fail:" + kind)
     for fp, what, neutral in suspects(case, ctx.sites):
+        if (kind == "hang") != (fp.split(":")[1] == "hang"):
+            continue                # a cause that makes ledger die does not explain a run that never ends, and vice versa
         o2 = run_case(neutral, binary, asan=asan)
         if o2.bad() is None:
             rep = {"case": case.to_json() if case.size() < 300000 else {"too_large": case.size(), "args_head": [a[:200] for a in case.args]},
@@ -834,7 +873,7 @@ def report_failure(ctx, case, outcome, binary, asan, hint=None):
         c2, f2 = top_frame(small, vflib.LEDGER, ctx.asan_binary, hang=(kind == "hang"))
         if f2 != "unknown":
             cat, fn = c2, f2
-    seq = repl_sequence_family(small, binary, asan, kind)
+    seq = repl_sequence_family(small, binary, asan, kind) if cat != "external" else None
     if seq:
         cat, fn = "repl-sequence", (seq if seq != "?" else fn)
     vflib.log("C11:   %s:%s shrunk %d -> %d bytes in %.1fs" % (cat, fn, case.size(), small.size(), time.time() - t1))
@@ -875,7 +914,7 @@ def handle_failures(ctx, failing, binary, asan):
         return
     groups, rest = {}, []
     for c, o in failing:
-        S = suspects(c, ctx.sites)
+        S = [x for x in suspects(c, ctx.sites) if (o.bad() == "hang") == (x[0].split(":")[1] == "hang")]
         if S:
             groups.setdefault(S[0][0], []).append((c, o))
         else:
